@@ -138,3 +138,43 @@ def make(dt, mod, fname):
 for _dt, (_mod, _fns) in REACH.items():
     for _f in _fns:
         make(_dt, _mod, _f)
+
+
+# ---------------------------------------------------------------------------------------- JSON: exception escape only (C07)
+def _json_contract(fname):
+    class JF(Contract):
+        id = "Field_json_%s_escape" % fname
+        fn = "gfapy/field/json.py::%s" % fname
+        props = ("C07",)
+        fragment = "S"
+        doc = ("json.%s: whatever json.loads does (assumed contract: it returns, or raises json.JSONDecodeError, or RecursionError on deep nesting), "
+               "only gfapy.Error subclasses escape" % fname)
+
+        def cases(self, ctx):
+            import json
+            g = ctx.gfapy
+            s = z3.String("s")
+            outcome = {}
+            def m_loads(E, st, pos_, kw):
+                # json.loads is a function of its argument: the same text gives the same outcome on every call
+                key = repr(pos_[0])
+                if key not in outcome:
+                    outcome[key] = (fresh("json_malformed", B), fresh("json_too_deep", B))
+                bad, deep = outcome[key]
+                yield ("val", Unknown("json value"), [z3.Not(bad), z3.Not(deep)])
+                yield ("raise", Exc(json.JSONDecodeError), [bad, z3.Not(deep)])
+                yield ("raise", Exc(RecursionError), [deep])
+            import importlib
+            m = importlib.import_module("gfapy.field.json")
+            inline = {getattr(m, n) for n in ("validate_encoded", "validate_all_printable", "unsafe_decode", "decode") if hasattr(m, n)}
+            def post(k, v, st):
+                return z3.BoolVal(issubclass(v.cls, g.Error)) if k == "raise" else z3.BoolVal(True)
+            return [Case("str", [s], post, symbols={"s": s}, models={json.loads: m_loads}, inline=inline,
+                         replay=lambda w: {"target": "bounded.replay_helpers:json_escape", "args": [fname]},
+                         confirm=lambda w, out: out.get("kind") != "return" or out.get("value") is not True)]
+    JF.__name__ = JF.id
+    return register(JF)
+
+
+for _f in ("validate_encoded", "decode"):
+    _json_contract(_f)
